@@ -18,6 +18,10 @@ type RawPeer struct {
 	Host  string
 	conns []*RawConn
 	L     *Listener
+	// Reserved != 0: every whole frame this peer sends carries this value in the reserved
+	// byte of its header and a pattern in the eight reserved bytes at its end (receivers
+	// ignore them; nothing of it may show up in what the receiver sends to anybody)
+	Reserved byte
 }
 
 // RawConn is one socket of a raw peer.
@@ -27,10 +31,17 @@ type RawConn struct {
 	nextID uint32
 	Got    []*wire.Frame // every frame read so far
 	rbuf   []byte
+	// Queue: follow-up frames a hostile generator wants sent next on this connection
+	Queue     [][]byte
+	QueueDesc []string
 }
 
 func (w *World) newRawPeer(name, host string) *RawPeer {
 	rp := &RawPeer{w: w, Name: name, Host: host}
+	if scnChance(1, 2) {
+		rp.Reserved = []byte{0xa7, 0x01, 0xff}[scn(3)]
+		w.probe("rawpeer.reserved-header-bytes-set")
+	}
 	w.RawPeers = append(w.RawPeers, rp)
 	return rp
 }
@@ -90,6 +101,13 @@ func (c *RawConn) ID() uint32 { id := c.nextID; c.nextID++; return id }
 
 // Send writes raw bytes.
 func (c *RawConn) Send(b []byte) error {
+	if r := c.p.Reserved; r != 0 && len(b) >= wire.HeaderSize && wire.FrameSize(b) == len(b) {
+		b = append([]byte(nil), b...)
+		b[3] = r
+		for i := 8; i < 16; i++ {
+			b[i] = r ^ byte(i)
+		}
+	}
 	_, err := c.c.Write(b)
 	return err
 }
